@@ -348,6 +348,12 @@ class LexicalAbc(Lexical, metaclass=LexicalAbcMeta, lexcopy=True):
     def __getnewargs__(self):
         return self.spec
 
+    def __reduce__(self):
+        # Rebuild from spec through the constructor. The default protocol
+        # copies cached lazy attributes, e.g. the hash, which is specific to
+        # the process that computed it.
+        return type(self), tuple(self.spec)
+
 
 class LexicalEnum(Lexical, LangCommonEnum, lexcopy=True):
     """Base class for Enum lexical classes. Subclassed by :class:`Quantifier`
